@@ -92,7 +92,7 @@ func genC19Restart(t *rapid.T) c19DelScenario {
 	sc := c19DelScenario{
 		GossipMs: rapid.SampledFrom([]int{50, 70, 100}).Draw(t, "gossipMs"),
 		// --cluster.probe-interval / --cluster.probe-timeout defaults are 1 s / 500 ms
-		ProbeMs:     rapid.SampledFrom([]int{1000, 1000, 1500}).Draw(t, "probeMs"),
+		ProbeMs:     rapid.SampledFrom([]int{1000, 1000, 1200}).Draw(t, "probeMs"),
 		NoReconnect: true,
 	}
 	// 2-3 live instances (plus the dead name) after the restart: every live
@@ -130,7 +130,7 @@ func genC19Restart(t *rapid.T) c19DelScenario {
 	return sc
 }
 
-const c19RestartRule = "scenario drawn by a rapid generator from the seed: 2-3 instances (generated join order and --cluster.peer subsets, probe interval 1-1.5 s as in production) exchange a first batch of 6-10 updates with sizes swept across the 700-byte limit; one generated instance is hard-crashed (its goroutines stop and its sockets close, no leave message); a NEW instance with a NEW name is started on the SAME ip:port, from the snapshot of the old one or empty, wired the same way, and joins a generated subset of the survivors - at once (80%, the survivors still list the old name as a member) or after the old name was declared dead (20%); 30% of the cases have a batch authored while the instance is down. The harness waits until every live instance lists every live name. Batches after the crash contain, by construction, one small and one oversized silence and notification-log update authored by survivors and two updates authored by the restarted instance (each small or oversized) plus 0-2 further oversized updates (new items, extended silences, re-logged entries): one batch right away while the old name may still be listed (60% of the at-once cases) and always one after no live instance lists the old name any more. memberlist keeps gossiping to a dead name until 30 s after it was declared dead and spends a fixed number (3) of transmissions per message, so gossip is best effort in that time and anti-entropy repairs it; to keep gossip delivery certain without anti-entropy the small updates of such a batch together fit one gossip packet and at most 3 instances are live (every live instance is a target of every gossip round). Periodic push/pull is off (24 h) and --cluster.reconnect-interval=0, so neither anti-entropy nor a re-join with the address of the dead name can mask a broken gossip or reliable-send path; every gossip queue is emptied before the restart so only the full-state exchange can serve the joiner. Oracle (that of C19Delivery): the restarted instance holds the complete state after its join; after every batch every live node answers the query for every item authored so far with the author's version (proto-equal); oversized_gossip_message_sent_total >= oversized payloads x live peers, dropped_total = 0. While a crashed name is still listed the premise 'stayed connected' is judged by name: every live node lists every live name, peers_joined_total unchanged, peers_left_total grew by no more than the crashed names that went away - otherwise the case is inconclusive. Non-trivial: the restart on the same address happened and, after no crashed name was listed any more, >=1 normal and >=1 oversized update were verified on every live node. A miss is retried twice from scratch with doubled deadlines (20/40/80 s); three misses = violation; environment errors (the port cannot be bound again, membership that does not converge, a failure detector that needs longer than twice the deadline) = inconclusive case; more than half of the cases inconclusive = inconclusive run."
+const c19RestartRule = "scenario drawn by a rapid generator from the seed: 2-3 instances (generated join order and --cluster.peer subsets, probe interval 1-1.2 s, production default 1 s) exchange a first batch of 6-10 updates with sizes swept across the 700-byte limit; one generated instance is hard-crashed (its goroutines stop and its sockets close, no leave message); a NEW instance with a NEW name is started on the SAME ip:port, from the snapshot of the old one or empty, wired the same way, and joins a generated subset of the survivors - at once (80%, the survivors still list the old name as a member) or after the old name was declared dead (20%); 30% of the cases have a batch authored while the instance is down. The harness waits until every live instance lists every live name. Batches after the crash contain, by construction, one small and one oversized silence and notification-log update authored by survivors and two updates authored by the restarted instance (each small or oversized) plus 0-2 further oversized updates (new items, extended silences, re-logged entries): one batch right away while the old name may still be listed (60% of the at-once cases) and always one after no live instance lists the old name any more. memberlist keeps gossiping to a dead name until 30 s after it was declared dead and spends a fixed number (3) of transmissions per message, so gossip is best effort in that time and anti-entropy repairs it; to keep gossip delivery certain without anti-entropy the small updates of such a batch together fit one gossip packet and at most 3 instances are live (every live instance is a target of every gossip round). Periodic push/pull is off (24 h) and --cluster.reconnect-interval=0, so neither anti-entropy nor a re-join with the address of the dead name can mask a broken gossip or reliable-send path; every gossip queue is emptied before the restart so only the full-state exchange can serve the joiner. Oracle (that of C19Delivery): the restarted instance holds the complete state after its join; after every batch every live node answers the query for every item authored so far with the author's version (proto-equal); oversized_gossip_message_sent_total >= oversized payloads x live peers, dropped_total = 0. While a crashed name is still listed the premise 'stayed connected' is judged by name: every live node lists every live name, peers_joined_total unchanged, peers_left_total grew by no more than the crashed names that went away - otherwise the case is inconclusive. Non-trivial: the restart on the same address happened and, after no crashed name was listed any more, >=1 normal and >=1 oversized update were verified on every live node. A miss is retried twice from scratch with doubled deadlines (20/40/80 s); three misses = violation; environment errors (the port cannot be bound again, membership that does not converge, a failure detector that needs longer than twice the deadline) = inconclusive case; more than half of the cases inconclusive = inconclusive run."
 
 func TestC19Restart(t *testing.T) {
 	const name = "C19Restart"
